@@ -819,8 +819,16 @@ class SymWalker:
                         self._bind(it.optional_vars, None)
             return self.block(st.body, states)
         if isinstance(st, (ast.FunctionDef, ast.AsyncFunctionDef, ast.ClassDef)):
+            body = [x for x in st.body if not (isinstance(x, ast.Expr) and isinstance(x.value, ast.Constant))] if isinstance(st, ast.FunctionDef) else []
             for s in states:
                 s.env.pop(st.name, None)
+                if len(body) == 1 and isinstance(body[0], ast.Return) and body[0].value is not None and not st.decorator_list and st.name not in self.keep:
+                    # a one-expression local function is the lambda of that expression (closure values as of here)
+                    args = copy.deepcopy(st.args)
+                    for a in args.posonlyargs + args.args + args.kwonlyargs + ([args.vararg] if args.vararg else []) + ([args.kwarg] if args.kwarg else []):
+                        a.annotation = None
+                    self.env = s.env
+                    s.env[st.name] = self.sub(ast.Lambda(args, copy.deepcopy(body[0].value)))
             return states
         for s in states:
             self.env = s.env
@@ -1557,7 +1565,15 @@ def against_reference(ctx, fi, ref_source, ref_names, key, int_names=None, leaf=
     # helpers the reference calls by name without defining them stay calls on both sides
     code_inl = (lambda c: base_inl(c) if (c.func.id in ref_funcs or c.func.id not in ref_called) else None) if inline else None
     canon_code = Canon(make_const_of(ctx, fi), int_names, (lambda c: code_inl(c) if isinstance(c.func, ast.Name) else None) if inline else None)
-    canon_ref = Canon(None, int_names, (lambda c: ref_funcs.get(c.func.id) if isinstance(c.func, ast.Name) and c.func.id != "_" else None) if inline else None)
+    ref_consts = {}
+    for n in tree.body:
+        if isinstance(n, ast.Assign) and len(n.targets) == 1 and isinstance(n.targets[0], ast.Name):
+            try:
+                ref_consts[n.targets[0].id] = ast.literal_eval(n.value)
+            except Exception:
+                pass
+    canon_ref = Canon((lambda e: ref_consts.get(e.id) if isinstance(e, ast.Name) else None) if ref_consts else None, int_names,
+                      (lambda c: ref_funcs.get(c.func.id) if isinstance(c.func, ast.Name) and c.func.id != "_" else None) if inline else None)
     s_code = summarize(fi.node, canon_code, leaf, keep)
     best = None
     for ref_name in ref_names:
